@@ -111,6 +111,28 @@ CLAIMS = {
  },
 }
 
+# obligations added after the independent seeded rounds (DESIGN.md section 9.6): appended to the level notes
+EXTRA = {
+ 'C01': 'Added: serialize_message sends the class\'s own serialize() (C01.conn.serialize_message).',
+ 'C02': 'Added: receive_message_object contract (None only on EOF); whole-tree scan that no logging call can raise in makeRecord (the extraction drops logging calls).',
+ 'C04': 'Added: uploader half of the retry path (exhaustive over states), the offset survives start_transferring, the announced size of THIS attempt is used, and the read contract of C02 (a reset is an error, not EOF) is discharged here as well.',
+ 'C05': 'Added: the tasks take their slot (INITIALIZING) before their first suspension; the done-callbacks that release the slot (C06) are discharged here as well; the ranking is stated on the result of _prioritize_uploads.',
+ 'C06': 'Added (relied-on contracts discharged here as well): dispatch on the current state after waiting for the lock (C03), cancellation of both connection attempts in race mode (C11), a user-requested abort is never re-queued by the re-evaluation (C08); remove() uses abort\'s precondition.',
+ 'C08': 'Added: entitlement re-checked for the requesting user on repeated requests for an existing upload, update_shared_directory (also an emptied user list), delivery of configuration changes to the management cycle (no lost change at any suspension point), and the ownership obligations of C07 are discharged here as well.',
+ 'C09': 'Added: the chain asks about the location chosen so far; a scan pins where the local path is chosen and what may suspend before the file exists (the recorded check-then-create window must not widen).',
+ 'C10': 'Added: an accepted connection is registered before the handler first suspends and ends CLOSED when its initialisation fails (C02 obligation discharged here as well).',
+ 'C11': 'Added: fallback for every failure kind of the direct attempt; a pierced connection is finalised with the user and type of the waiting request.',
+ 'C12': 'Added: time-out with the future already holding a result / still pending; a waiter that expires while the handlers run; the PeerTransferReply waiter of the upload negotiation is done on every exit.',
+ 'C13': 'Added: candidates are only added, _set_parent assigns before its first suspension, get_distributed_peer compares the connection.',
+ 'C14': 'Added: the fan-out to the children never suspends, only incoming connections are considered as children, and the parent-election / peer-lookup obligations of C13 are discharged here as well.',
+ 'C15': 'Added: the worker ends only if its queue is empty at that very moment (a request injected at every suspension point); CLOSED drops the tracking state for every close reason.',
+ 'C16': 'Added: the watchdog retries whatever state the previous run saw.',
+ 'C17': 'Added: restored transfers own their mutable run-time fields.',
+ 'C18': 'Added: wishlist loop contract (callback invoked after the loop variables were rebound), lookup and report are atomic in the reply handler, one ticket generator for the life of the manager, the expired request is unregistered before the first suspension.',
+ 'C19': 'Added: loop contracts for the closing loop of RoomList and for PrivilegedUsers (one arbitrary room / user).',
+ 'C20': 'Added: the limiter is read from the connection at every chunk; bounded wait for up to four waiters (INTERVAL/4 gap credits at least one token, constants read from the source).',
+}
+
 NA_DEFAULT = 'check not built yet (work in progress; see DESIGN.md section 4 for the planned contracts)'
 NA = {}
 
@@ -130,7 +152,7 @@ def main():
             'replay_cmd_template': f'./check {p["id"]} --replay {{path}}',
             'engine': 'pyvc',
             'level_claimed': {'category': 'proof', 'text': c['text'], 'design_ref': c['design_ref']},
-            'level_note': c['note'],
+            'level_note': c['note'] + (' ' + EXTRA[p['id']] if p['id'] in EXTRA else '') + ' Thorough tier: the same obligations plus a bounded native sweep of the replay battery over the current tree.',
             'technique': c.get('technique', TECH),
         })
     m = {
